@@ -46,7 +46,7 @@ func init() {
 		ID:          "C15",
 		Title:       "Parent and child (extension) stores stay consistent",
 		Technique:   "static analysis: per-iteration path rule for the child-store filter in every id scan, routing order rule in Update/DeleteById, forwarding table for the parent persist/indexing contexts, wrapper-normalisation rule for extended stores, path-construction rule for nested child data; parent chaining on every returning path; role-based discovery of the row-filtering scan functions",
-		LevelText:   "Decides on every path: each scan loop skips ids that lack child data (unless the store is extended) before evaluating the filter; extended stores wrap id iteration in the valid-ids cursor and normalise its initial position; loads return nothing for a plain parent entity through a non-extended child and the parent data through an extended one; Update tries the child-store handlers (forwarding the same field checker) before its own persist; the parent indexing context is created iff a parent exists and shares the error holder; the parent persist context forwards id, mutate context, field checker and create flag and shares the child's error holder; child data is nested below the parent's entity bucket. Query results on mixed populations are not decided. newIndexingContext creates and stores the parent store's context on every returning path unless there is no parent; the child-presence filter is checked in every scanner function that evaluates the query filter per row (found by role). Added later: child strategies are appended (CHILDREG); IterateIds hands out only the filtering scanner (IDCURSOR); FindById, LoadById and LoadEntity fill from the bucket the shared load lookup found (LOADERS). Strengthened in round 8: a child store hands the delete to its parent on every path. Added in round 10: once the child store's Update has run the update handler answers (true, that result) (CHILDUPDATE). Added in round 11: NewTypedBucket answers a fresh object on every path (NEWBUCKET); ENTITYBUCKET as in C05. Added in round 13: PROTOCOL as in C03; membership on the delete path is decided by the load, not by IsEntityPresent, unless the store asks whether it is extended (DELETEMEMBER).",
+		LevelText:   "Decides on every path: each scan loop skips ids that lack child data (unless the store is extended) before evaluating the filter; extended stores wrap id iteration in the valid-ids cursor and normalise its initial position; loads return nothing for a plain parent entity through a non-extended child and the parent data through an extended one; Update tries the child-store handlers (forwarding the same field checker) before its own persist; the parent indexing context is created iff a parent exists and shares the error holder; the parent persist context forwards id, mutate context, field checker and create flag and shares the child's error holder; child data is nested below the parent's entity bucket. Query results on mixed populations are not decided. newIndexingContext creates and stores the parent store's context on every returning path unless there is no parent; the child-presence filter is checked in every scanner function that evaluates the query filter per row (found by role). Added later: child strategies are appended (CHILDREG); IterateIds hands out only the filtering scanner (IDCURSOR); FindById, LoadById and LoadEntity fill from the bucket the shared load lookup found (LOADERS). Strengthened in round 8: a child store hands the delete to its parent on every path. Added in round 10: once the child store's Update has run the update handler answers (true, that result) (CHILDUPDATE). Added in round 11: NewTypedBucket answers a fresh object on every path (NEWBUCKET); ENTITYBUCKET as in C05. Added in round 13: PROTOCOL as in C03; membership on the delete path is decided by the load, not by IsEntityPresent, unless the store asks whether it is extended (DELETEMEMBER). A create through a child store asks whether the parent row exists (PARENTROW: violated on the pinned tree, known finding). The delete hooks of the constraints use the unconditional removers (IDEMPOTENT: the parent's delete constraints run twice for child entities).",
 		LevelNote:   "Trusted: go/types, x/tools SSA; user-supplied Mapper/EntityStrategy behaviour.",
 		DesignRef:   "DESIGN.md C15",
 		Explanation: "Sites: uniqueIndexScanner.Next/nextUnpaged, sortingScanner.ScanCursor, BaseStore.IterateValidIds/getEntityBucketForLoad/Update/newIndexingContext, ChildStoreUpdateHandler.HandleUpdate, PersistContext.GetParentContext, NewBaseStore, GetEntityBucket.",
@@ -56,6 +56,7 @@ func init() {
 			ruleProtocol(c, "C15.PROTOCOL")
 			ruleDeleteMembership(c, "C15.DELETEMEMBER")
 			ruleChildCreateAsksParent(c, "C15.PARENTROW")
+			ruleDeleteHooksIdempotent(c, "C15.IDEMPOTENT")
 			ruleChildUpdateHandled(c, "C15.CHILDUPDATE")
 			ruleNeverNilCtor(c, "C15.NEWBUCKET")
 			ruleEntityBucketDescent(c, "C15.ENTITYBUCKET")
